@@ -105,14 +105,19 @@ Index(x, i, fromEnd) ==
   IF IsErr(x) THEN x ELSE IF IsErr(i) THEN i
   ELSE IF x.t \notin {"a", "s"} \/ i.t # "i" THEN E("type")
   ELSE LET n == Len(x.v)  p == IF fromEnd THEN n - i.v ELSE i.v
-       IN IF p < 0 \/ p >= n THEN E("index") ELSE Elem(x, p + 1)
+       IN IF x.t = "s" /\ p = n THEN I(0)                  \* the terminating NUL may be read (MudOS: index == length is allowed for strings)
+          ELSE IF p < 0 \/ p >= n THEN E("index") ELSE Elem(x, p + 1)
 \* x[i..j] with optional counting from the end on either side
 Range(x, i, ie, j, je) ==
   IF IsErr(x) THEN x ELSE IF IsErr(i) THEN i ELSE IF IsErr(j) THEN j
   ELSE IF x.t \notin {"a", "s"} \/ i.t # "i" \/ j.t # "i" THEN E("type")
   ELSE LET n == Len(x.v)
-           lo0 == IF ie THEN n - i.v ELSE i.v
-           hi0 == IF je THEN n - j.v ELSE j.v
+           lo1 == IF ie THEN n - i.v ELSE i.v
+           hi1 == IF je THEN n - j.v ELSE j.v
+           \* the driver is built with OLD_RANGE_BEHAVIOR: in a STRING range an index that is negative (after the
+           \* conversion of <n) counts from the end (lpc.md, 'Indexing and Ranging'); arrays are only cut down
+           lo0 == IF x.t = "s" /\ lo1 < 0 THEN lo1 + n ELSE lo1
+           hi0 == IF x.t = "s" /\ hi1 < 0 THEN hi1 + n ELSE hi1
            lo == IF lo0 < 0 THEN 0 ELSE lo0
            hi == IF hi0 >= n THEN n - 1 ELSE hi0
            q == IF lo > hi THEN <<>> ELSE SubSeq(x.v, lo + 1, hi + 1)
